@@ -3,7 +3,7 @@ import hashlib
 
 from hypothesis import strategies as st
 
-from vf.harness import HarnessError, Task, drive, hx, unhx
+from vf.harness import HarnessError, Task, drive, hx, same_by_name, unhx
 from vf.model import kdf, vectors
 from vf.strategies import sized_binary
 
@@ -49,6 +49,7 @@ def o_extract(ctx, case):
     salt, ikm = unhx(case["salt"]), unhx(case["ikm"])
     ctx.begin("extract", case)
     got = hkdf_extract(salt, ikm)
+    same_by_name(ctx, "extract", case, hkdf_extract, (salt, ikm), got, "hkdf_extract")
     want = kdf.hkdf_extract(salt, ikm)
     ctx.check(isinstance(got, (bytes, bytearray)) and bytes(got) == want, "extract", "mismatch",
               case, f"hkdf_extract={hx(got) if isinstance(got,(bytes,bytearray)) else got!r} model={hx(want)}")
@@ -65,6 +66,7 @@ def o_expand(ctx, case):
     prk, info, L = unhx(case["prk"]), unhx(case["info"]), case["L"]
     ctx.begin("expand", case)
     got = hkdf_expand(prk, info, L)
+    same_by_name(ctx, "expand", case, hkdf_expand, (prk, info, L), got, "hkdf_expand")
     want = kdf.hkdf_expand(prk, info, L)
     ok = isinstance(got, (bytes, bytearray)) and bytes(got) == want and len(got) == L
     ctx.check(ok, "expand", "mismatch", case,
